@@ -10,6 +10,10 @@ CONSTANTS
   BugAuthLate = TRUE
   BugTolerateNoEvict = FALSE
   BugFallbackAnyHelloErr = FALSE
-INVARIANTS TypeOK AuthLeadsResp2 NoUserCommandBeforeSetup ServedOnlyWhenConfigured FallbackOnlyOnHelloRejected NoFallbackWithCache
+  ErrTexts = "one"
+  StrictHelloStep = FALSE
+  BugMixCreds = FALSE
+  BugNopermFallback = FALSE
+INVARIANTS TypeOK AuthLeadsResp2 AuthAsSupplied NoUserCommandBeforeSetup ServedOnlyWhenConfigured FallbackOnlyOnHelloRejected NoFallbackWithCache
   FailedStepFailsConnection ToleratedOnly NoCacheOnlyWithCacheOrClient CleanRunSucceeds OldServerWorksWithoutCache
 CHECK_DEADLOCK FALSE
